@@ -51,6 +51,11 @@ pub mod inspect {
             .collect()
     }
 
+    /// the function objects executing in the call frames (null for the entry frame), outermost first
+    pub fn frame_callees(rt: &RuntimeData) -> Vec<*mut CaoLangObject> {
+        rt.call_stack.iter().map(|f| f.callee).collect()
+    }
+
     pub fn globals(rt: &RuntimeData) -> Vec<Value> {
         rt.global_vars.clone()
     }
